@@ -1687,9 +1687,9 @@ Qed.
 Definition each_node (c : ctx) (n : node) : list node :=
   match n with
   | NEach _ x body =>
-      match lookup c x with
-      | Some (VList items) => map NLeaf (loop_leaves body (length items) O items)
-      | _ => []
+      match lookup_seq c x with
+      | Some items => map NLeaf (loop_leaves body (length items) O items)
+      | None => []
       end
   | _ => [n]
   end.
@@ -1709,10 +1709,11 @@ Proof.
 Qed.
 
 Lemma lookup_items_ok : forall c x items, ctx_ok c = true ->
-  lookup c x = Some (VList items) -> items_ok (length items) O items = true.
+  lookup_seq c x = Some items -> items_ok (length items) O items = true.
 Proof.
-  intros c x items Hc L. apply lookup_ok in L; auto. unfold value_ok in L.
-  apply andb_prop in L. tauto.
+  intros c x items Hc L. unfold lookup_seq in L. destruct (lookup c x) as [v|] eqn:Lv; [|discriminate].
+  apply lookup_ok in Lv; auto. unfold value_ok in Lv. apply andb_prop in Lv. destruct Lv as [_ Lv].
+  rewrite L in Lv. exact Lv.
 Qed.
 
 Lemma pass_each_nodes : forall c t, ctx_ok c = true -> well_formed t = true -> if_free t ->
@@ -1731,7 +1732,7 @@ Proof.
   - destruct Hn'.
   - destruct (node_wf_each ws x body Hn) as (Hws & Hx & Hbody).
     unfold subst. cbn [flat_map]. rewrite app_nil_r.
-    destruct (lookup c x) as [[s0|z|b0|items]|] eqn:L; try reflexivity.
+    destruct (lookup_seq c x) as [items|] eqn:L; try reflexivity.
     rewrite print_map_leaf. apply loop_items_leaves; auto.
     eapply lookup_items_ok; eauto.
 Qed.
@@ -1860,9 +1861,9 @@ Definition block_leaves (c : ctx) (n : node) : list leaf :=
   | NLeaf l => [l]
   | NIf _ x a b => if_branch c x a b
   | NEach _ x body =>
-      match lookup c x with
-      | Some (VList items) => loop_leaves body (length items) O items
-      | _ => []
+      match lookup_seq c x with
+      | Some items => loop_leaves body (length items) O items
+      | None => []
       end
   end.
 Definition blocks (c : ctx) (t : template) : list leaf := flat_map (block_leaves c) t.
@@ -1930,7 +1931,7 @@ Proof.
   destruct n as [l|ws x a b|ws x body]; cbn [if_node block_leaves].
   - reflexivity.
   - induction (if_branch c x a b) as [|l ls IHl]; [reflexivity|]. cbn. f_equal. exact IHl.
-  - cbn. rewrite app_nil_r. destruct (lookup c x) as [[s0|z|b0|items]|]; reflexivity.
+  - cbn. rewrite app_nil_r. destruct (lookup_seq c x) as [items|]; reflexivity.
 Qed.
 
 Lemma blocks_wf : forall c t, ctx_ok c = true -> well_formed t = true -> wf_leaves (blocks c t).
@@ -1942,7 +1943,7 @@ Proof.
   - cbn in Hn. apply wf_sc in Hn. repeat constructor; auto.
   - destruct (node_wf_if ws x a b Hn) as (_ & _ & Ha & Hb). apply if_branch_wf; auto.
   - destruct (node_wf_each ws x body Hn) as (_ & _ & Hbody).
-    destruct (lookup c x) as [[s0|z|b0|items]|] eqn:L; try constructor.
+    destruct (lookup_seq c x) as [items|] eqn:L; try constructor.
     apply loop_leaves_wf; auto. eapply lookup_items_ok; eauto.
 Qed.
 
@@ -1971,9 +1972,9 @@ Definition block_leaves_s (c : ctx) (n : node) : list leaf :=
   | NLeaf l => [l]
   | NIf _ x a b => if_branch c x a b
   | NEach _ x body =>
-      match lookup c x with
-      | Some (VList items) => loop_leaves_s body (length items) O items
-      | _ => []
+      match lookup_seq c x with
+      | Some items => loop_leaves_s body (length items) O items
+      | None => []
       end
   end.
 Definition blocks_s (c : ctx) (t : template) : list leaf := flat_map (block_leaves_s c) t.
@@ -2024,7 +2025,7 @@ Proof.
   - unfold render_leaves. cbn. destruct (render_leaf strict c inc None l); cbn; rewrite ?app_nil_r; reflexivity.
   - unfold if_branch. destruct (lookup c x) as [v|]; [destruct (truthy v)|]; try reflexivity;
       destruct b; reflexivity.
-  - destruct (lookup c x) as [[s0|z|b0|items]|]; try reflexivity. apply render_items_leaves.
+  - destruct (lookup_seq c x) as [items|]; try reflexivity. apply render_items_leaves.
 Qed.
 
 
@@ -2096,7 +2097,7 @@ Proof.
     - apply twf_rel. constructor; [exact Hn|constructor].
     - destruct (node_twf_if ws x a b Hn) as (Ha & Hb). apply twf_rel. apply if_branch_twf; auto.
     - pose proof (node_twf_each ws x body Hn) as Hbody.
-      destruct (lookup c x) as [[s0|z|b0|items]|] eqn:L; try (split; [reflexivity|constructor]).
+      destruct (lookup_seq c x) as [items|] eqn:L; try (split; [reflexivity|constructor]).
       apply loop_leaves_rel; auto. eapply lookup_items_ok; eauto. }
   destruct Q as [Q1 Q2]. rewrite Q1. auto.
 Qed.
@@ -3688,7 +3689,7 @@ Proof.
     apply I1. repeat constructor; auto.
   - destruct (node_wf_each ws x body Hn) as (Hws & Hx & Hbody).
     cbn [map taint_tok tsub fst snd]. rewrite covers_template. cbn [app].
-    destruct (lookup c x) as [[s0|z|b0|items]|] eqn:L;
+    destruct (lookup_seq c x) as [items|] eqn:L;
       try (cbn; split; auto; intros Y HY; inversion HY; apply Inv_nil).
     pose proof (lookup_items_ok c x items Hc L) as Hit.
     destruct (loop_items_t_clean (taint FromTemplate (print_leaves body)) (length items) items O Hit
@@ -3800,18 +3801,34 @@ Proof.
 Qed.
 
 (* ================================================================== *)
-(* U. histories on one instance: a render is a function of (templates, strict, context,
-      template) only - nothing an earlier call did (its outcome, an exception, the counters)
-      can influence a later one *)
-Lemma step_state : forall i cl,
-  i_templates (fst (step i cl)) = i_templates i /\ i_strict (fst (step i cl)) = i_strict i.
-Proof. intros. split; reflexivity. Qed.
+(* U. histories on one instance: every operation answers the pure function [result_on] of the
+      registry as it is at that moment (built by the registrations so far), the strict flag and
+      the operation itself - nothing an earlier call did (its outcome, an exception, the counters,
+      the .name of an mRNA it rendered) can influence a later one *)
+Fixpoint replay (strict : bool) (T : list (str * template)) (os : list op)
+  : list (list (str * template) * result) :=
+  match os with
+  | [] => []
+  | o :: rest => (T, result_on strict T o) :: replay strict (registry_after T o) rest
+  end.
 
-Theorem history_independent_proof : forall T strict n cls,
-  run_calls (mkInstance T strict n) cls =
-  map (fun cl : call => (render_impl strict (print_templates T) (snd cl) (print (fst cl)),
-                         render_taint strict (print_templates T) (snd cl) (print (fst cl)))) cls.
+Theorem current_registry_proof : forall T strict n os,
+  run_ops (mkInstance T strict n) os = replay strict T os.
 Proof.
-  intros T strict n cls. revert n. induction cls as [|cl cls IH]; intros n; [reflexivity|].
-  cbn [run_calls step map i_templates i_strict i_calls fst snd]. f_equal. apply IH.
+  intros T strict n os. revert T n. induction os as [|o os IH]; intros T n; [reflexivity|].
+  cbn [run_ops step replay i_templates i_strict i_calls]. f_equal. apply IH.
+Qed.
+
+(* registration is dict assignment: afterwards the name resolves to the new template and every
+   other name resolves as before *)
+Lemma lookup_reg_set : forall T n t m,
+  lookup (reg_set T n t) m = if str_eqb n m then Some t else lookup T m.
+Proof.
+  induction T as [|[k u] T IH]; intros n t m; cbn [reg_set lookup].
+  - destruct (str_eqb n m); reflexivity.
+  - destruct (str_eqb k n) eqn:E; cbn [lookup].
+    + apply str_eqb_eq in E. subst k. destruct (str_eqb n m); reflexivity.
+    + rewrite IH. destruct (str_eqb k m) eqn:E2; [|reflexivity].
+      apply str_eqb_eq in E2. subst k. destruct (str_eqb n m) eqn:E3; [|reflexivity].
+      apply str_eqb_eq in E3. subst m. rewrite str_eqb_refl in E. discriminate.
 Qed.
